@@ -572,6 +572,9 @@ class Evaluator:
             src = ast.unparse(dec)
             if src in ("staticmethod", "classmethod", "property") or src.endswith(".setter") or src.split(".")[-1] == "cached_property":
                 continue
+            if src.split(".")[-1] == "contextmanager":
+                fv.is_ctxmgr = True     # a generator-based context manager: see st_With
+                continue
             dfr = frame if frame is not None else Frame(fi.module)
             d = self.eval(dec, dfr)
             fv = self.call(d, [fv], {}, dec)
@@ -1428,7 +1431,15 @@ class Evaluator:
                 if h.type is None or exc_matches(r.exc, ast.unparse(h.type)):
                     if h.name:
                         fr.vars[h.name] = r.exc
-                    return self.exec_block(h.body, fr)
+                    try:
+                        sig = self.exec_block(h.body, fr)
+                    except RaiseSignal:
+                        self.exec_block(st.finalbody, fr)
+                        raise
+                    fin = self.exec_block(st.finalbody, fr)
+                    return fin if fin is not None else sig
+            # no handler: the finally clause runs on the way out (its effects belong to the path)
+            self.exec_block(st.finalbody, fr)
             raise
         if sig is None:
             sig = self.exec_block(st.orelse, fr)
@@ -1437,6 +1448,21 @@ class Evaluator:
 
     def st_With(self, st, fr):
         for item in st.items:
+            ce = item.context_expr
+            if isinstance(ce, ast.Call):
+                f = self.eval(ce.func, fr)
+                if isinstance(f, FuncV) and getattr(f, "is_ctxmgr", False):
+                    # @contextlib.contextmanager: the code before and after the `yield` brackets the body; it is evaluated for its
+                    # effects (both halves, before the body), the yielded value is bound by `as`
+                    self._yielded = []
+                    self._in_ctxmgr = getattr(self, "_in_ctxmgr", 0) + 1
+                    try:
+                        self.call(f, [self.eval(a, fr) for a in ce.args], {k.arg: self.eval(k.value, fr) for k in ce.keywords if k.arg}, ce)
+                    finally:
+                        self._in_ctxmgr -= 1
+                    if item.optional_vars is not None:
+                        self.assign(item.optional_vars, self._yielded[0] if self._yielded else Const(None), fr)
+                    continue
             v = self.eval(item.context_expr, fr)
             if item.optional_vars is not None:
                 self.assign(item.optional_vars, v, fr)
@@ -1640,6 +1666,12 @@ class Evaluator:
             else:
                 return Top("f-string")
         return Const("".join(parts))
+
+    def ex_Yield(self, e, fr):
+        if getattr(self, "_in_ctxmgr", 0) <= 0:
+            raise AnalysisError("generator function outside the model")
+        self._yielded.append(self.eval(e.value, fr) if e.value is not None else Const(None))
+        return Const(None)
 
     def ex_NamedExpr(self, e, fr):
         v = self.eval(e.value, fr)
